@@ -126,7 +126,8 @@ def events_for(darsia, rng, shape, h, tid, integer_h):
     # arithmetic): every call has to return the mean of the values the caller holds, whatever was computed before
     for kind in ("scalar", "vector", "tensor"):
         if kind == "scalar":
-            arr = np.array([rng.randint(1, 3) for _ in range(nc)], dtype=float).reshape(shape, order=rng.choice(["F", "C"]))
+            # (scalar fields with compact support: exact zeros next to positive values, zeros next to zeros)
+            arr = np.array([rng.randint(0, 3) if rng.random() < 0.6 else 0 for _ in range(nc)], dtype=float).reshape(shape, order=rng.choice(["F", "C"]))
             v = [int(x) for x in arr.ravel("F")]
             if rng.random() < 0.5:
                 arr = arr[..., None]
